@@ -14,7 +14,7 @@ from typing import List, Optional, Set
 
 from ..astq import assignments, calls, kwarg, params, stmts
 from ..callgraph import fkey
-from ..cfg import CFG, cond_atoms
+from ..cfg import CFG, cond_atoms, flatten_conj, path_conditions
 from ..report import Check
 from ..source import AnalysisError, Project, ancestors, body_walk, dotted, enclosing_func, enclosing_stmt, last_attr, norm, parent, qual_of, short
 
@@ -173,6 +173,11 @@ def s9_every_dir_every_time(chk: Check, proj: Project) -> None:
     chk.ob("S9", "finders:find:searched_locations-does-not-gate-the-lookup", fm.loc(skips[0]) if skips else fm.loc(ff), not skips,
            "`searched_locations` is only appended to; the lookup runs for every directory on every call" if not skips else
            f"`{short(enclosing_stmt(skips[0]))}` skips a directory that is already in `searched_locations`, a module-level list nothing ever clears: only the FIRST find() of the process searches a directory, every later lookup returns nothing for files that list() still exposes")
+    pth = params(ff)[1]
+    early = [r for r in ast.walk(ff) if isinstance(r, (ast.Return, ast.Continue, ast.Break)) and any(any(isinstance(x, ast.Name) and x.id == pth for x in ast.walk(e)) for e, _p in flatten_conj(path_conditions(r)))]
+    chk.ob("S9", "finders:find:no-exit-on-the-text-of-the-path", fm.loc(early[0]) if early else fm.loc(ff), not early,
+           "find() hands every requested path to find_location(); no exit depends on the text of the path" if not early else
+           f"`{short(early[0])}` under `{' and '.join(('' if p_ else 'not ') + t_ for t_, p_ in cond_atoms(early[0]))}` ends the lookup because of the TEXT of the requested path: a substring test such as `'..' in path` also refuses allowed files whose NAME contains the substring (`jquery..min.js`, `v1..2/app.js`), which list() still exposes - traversal is already refused by safe_join in find_location")
     fl, flf = proj.func("finders", "ComponentsFileSystemFinder.find_location")
     strips = [c for fn in (ff, flf) for c in ast.walk(fn) if isinstance(c, ast.Call) and isinstance(c.func, ast.Attribute) and c.func.attr in ("lstrip", "rstrip", "strip") and c.args and not (isinstance(c.args[0], ast.Constant) and isinstance(c.args[0].value, str) and len(c.args[0].value) == 1)]
     chk.ob("S9", "finders:find_location:relative-path-by-prefix-operation", fl.loc(strips[0]) if strips else fl.loc(flf), not strips,
